@@ -307,6 +307,21 @@ def check(ctx):
     ok = len(hdr) == 1 and hdr[0].args[0].value == "Snapshot (%s)"
     ctx.ob("R1", "line::Snapshot-header", ok and "_re_snapshot_alt" in by_fn and regex_skeleton(by_fn["_re_snapshot_alt"]) == [("lit", "Snapshot ("), ("group", "any"), ("lit", ")")],
            "the `Snapshot (<name>)` header written by do_snapshot is not what _re_snapshot_alt reads", ds.loc)
+    # the name survives: the header line as the shell's two log formats carry it, for names with brackets and blanks,
+    # read by every snapshot-header row of the table in table order (each matching row stores, the last one wins)
+    name_rows = [(pat, fn) for pat, fn in table if fn in ("_re_snapshot", "_re_snapshot_alt")]
+    ctx.floor("R1", "snapshot-header reader rows", len(name_rows), 1)
+    if ok and name_rows:
+        for probe in ("Heating", "P1 (high) + blower", "a)b", "((x", "spa) Snapshot (2"):
+            for fmt_name, line in (("logfile", f"2020-12-08 19:53:28,310 geckolib.utils.shell INFO Snapshot ({probe})\n"), ("basic", f"INFO:geckolib.utils.shell:Snapshot ({probe})\n")):
+                got = None
+                for pat, fn in name_rows:
+                    m_ = re.search(pat, line, re.DOTALL)
+                    if m_:
+                        got = m_.groups()[-1]
+                ctx.ob("R1", f"line::Snapshot-header::name::{fmt_name}::{probe}", got == probe,
+                       f"a snapshot named {probe!r}, written as {line.strip()!r}, is read back with the name {got!r} (rows {[fn for _, fn in name_rows]})", snap_init.loc,
+                       sample={"rule": "R1", "name": probe, "format": fmt_name, "read_back": got} if probe == "a)b" else None)
     order = [call_name(n) for n in ast.walk(ds.node) if isinstance(n, ast.Call) and call_name(n) == "info"]
     ctx.ob("R1", "do_snapshot::writes-header-versions-block", len(order) == 3, f"do_snapshot writes {len(order)} kinds of lines (header, version lines, block expected)", ds.loc)
     # parse_log_file: a snapshot starts at a line containing "Snapshot" and takes lines containing "INFO"
